@@ -54,6 +54,34 @@ CLAIMS = {
             'index) are evaluated from the syntax tree and compared with the defining rules; the classical allotment table is an independent oracle.',
             'Numeric layer replaced by oracles: which civil day a term falls on and which day is Geng/Bing/Wei on the real calendar are C05/C06/C07. '
             'Pentad names are only required to be 72 distinct names.', 'DESIGN.md §3 C15'),
+    'C01': ('exhaustive guard-bounded tables (PETE), who-may-construct from the syntax tree, Julian-day formulas tabulated per (year, month) with a structural additivity lemma',
+            'Leap rule and year length for every year, month length for all 119,988 (year, month) pairs, the acceptance grid of SolarDay::new over '
+            '(20 year classes x 12 months x day 0..33) against calendar existence, the before/after/== decision table, who-may-construct for 13 guarded types, '
+            'and the two Julian-day float formulas evaluated at the first (forward) and first+last (backward) day of every month 0001-01..9999-12 against an '
+            'integer calendar oracle; a syntactic lemma shows the day enters the forward formula only additively, so month granularity decides every date. '
+            'Stepping, subtraction and day-of-year are evaluated around month ends, leap days and the 1582 gap.',
+            'Per-day enumeration (3.65 M dates) is refused as a runtime test; the residual risk is an error island strictly inside a month of the inverse formula that '
+            'vanishes at both month ends. The (year, month) table is the largest finite table used (see DESIGN §1.2 amendment). Trusted: python IEEE-754 doubles = Rust f64 for + - * / and truncation.',
+            'DESIGN.md §3 C01'),
+    'C12': ('integer carry code evaluated on carry-boundary tables; comparator decision table; real Julian-date float formulas on sampled instants',
+            'SolarTime::next for 11 base instants x 39 step sizes around every unit (second..year, the 1582 gap), subtract/before/after on 289 pairs, the '
+            'comparator over all 81 order types, the guard grid, instant->Julian date->instant on ~12,600 sampled instants (every second of 23:00-24:00 on a month end and at the gap; strides elsewhere; '
+            '12 calendar corner days) and fractional Julian dates just below every carry boundary (valid instant within 0.5 s).',
+            'Day layer replaced by the calendar oracle for the integer code (C01 decides it). Round trip for every second of every day is sampled, not exhaustive.', 'DESIGN.md §3 C12'),
+    'C13': ('container listings evaluated by PETE (civil: real calendar via oracle day count; lunar/sexagenary: scenario calendars)',
+            'Civil nesting (year/half/season/month) as a closed system, month -> exactly the existing dates for 120 months incl. October 1582, day-of-year = position in the '
+            'concatenated lists, lunar year -> 12/13 months incl. a leap month, lunar month -> days, lunar day -> 13 slots (regular and leap month), sexagenary day -> 12 slots from 23:00, '
+            'sexagenary month -> days between consecutive Jie days.',
+            'Lunar month lengths and term days are scenario inputs (C03, C05/C06).', 'DESIGN.md §3 C13'),
+    'C14': ('week code evaluated by PETE on calendar months for every start weekday and week index',
+            'For 96+ civil months (all weekday/length combinations, October 1582) x 7 week starts: count, first day on the chosen weekday, seven consecutive days, 7 days apart, coverage; '
+            'week-of-date contains the date for every day of 4 sample years incl. 1582; stepping by n moves the first day 7n days (1088 cases); index in year; the same for lunar months on a '
+            'scenario calendar with two leap months (952 stepping cases).',
+            'Civil date <-> day number replaced by the calendar oracle (C01); real lunar month boundaries are numeric (C03).', 'DESIGN.md §3 C14'),
+    'C16': ('child-limit pipeline and fortune getters evaluated by PETE on a scenario calendar for dense birth instants x gender',
+            'Direction truth table, governing Jie by instant (incl. births on a Jie day before/after the instant), the five exchange rates, calendar addition with chained carries, '
+            'the China95 and sect-2 strategies, decade and yearly fortune affine forms: ~1,360 evaluated (birth, gender) points against the statement. The October-1582 addition defect is a listed known finding.',
+            'Numeric layer replaced by oracles (C01, C05/C06, C02/C03). LunarSect1 strategy not judged.', 'DESIGN.md §3 C16'),
 }
 
 PENDING_REASON = 'check not built yet (DESIGN.md gives the planned static clauses); will be claimed once its rule engine exists'
